@@ -13,6 +13,7 @@ func init() {
 				{Harness: "c20.paths", Mode: "plain", Shards: 16},
 				{Harness: "c20.reuse", Mode: "plain", Shards: 8},
 				{Harness: "c20.sched", Mode: "shim", Shards: 2},
+				{Harness: "c20.free", Mode: "racefree", Shards: 2, GC: "on"},
 			}
 		},
 	})
